@@ -14,9 +14,13 @@ META = {
                    'until Terminate has been consumed, holds exactly the collected elements afterwards, and stays empty '
                    'on every path on which the upstream panicked. Start over N upstream replicas one of which dies at any point '
                    '(no Terminate, channel disconnected once the survivors are done) fails instead of reporting the end '
-                   'of the stream or of the iteration. Propagation of the panic across threads '
-                   '(JoinHandle::join) is outside the technique.',
-    'assumptions': ['std::sync::Mutex::lock succeeds when not poisoned'],
+                   'of the stream or of the iteration. Scheduler::start_blocking over n worker handles, every subset of which '
+                   'failed: it fails iff some worker did (the real join loop; thread creation and the workers themselves are '
+                   'stubs). How the other workers notice a dead peer at run time (blocking threads) is outside the technique.',
+    'assumptions': ['std::sync::Mutex::lock succeeds when not poisoned',
+                    'JoinHandle::join returns Err exactly for a worker that panicked (std contract)',
+                    'stubs in the scheduler harness: Scheduler::build_all (returns the n handles), log_topology, '
+                    'NetworkTopology::stop_and_wait, wait_profiler, log_tracing_data (no effect)'],
     'trusted': ['mirsym MIR executor and its std model table', 'z3 / cvc5'],
 }
 
@@ -309,6 +313,79 @@ def crash_harness(w, nsenders, adaptive, max_len):
     return h
 
 
+class WorkerHandle(PyObj):
+    """std::thread::JoinHandle<()> of a worker: join() returns Err iff the worker panicked (decided by the harness)"""
+    name = 'JoinHandle'
+
+    def __init__(self, idx, failed, joined):
+        self.idx, self.failed, self.joined = idx, failed, joined
+
+    def trait_call(self, ex, trait, method, args):
+        from mirsym.models import err, ok
+        if method == 'join':
+            self.joined.append(self.idx)
+            return err(Opaque('panic payload of worker %d' % self.idx)) if self.failed else ok(unit())
+        if method in ('is_finished',):
+            return True
+        return NotImplemented
+
+
+def join_harness(w, n):
+    """Scheduler::start_blocking with build_all replaced by n worker handles of which an arbitrary subset failed: the
+    real code that waits for the workers must fail iff at least one of them did"""
+    from mirsym.models_coll import MapModel
+    sb = w.impls[(None, 'Scheduler')]['start_blocking'][0]
+
+    def h(ex):
+        mask = [ex.choose(2, 'worker %d panicked' % i) == 1 for i in range(n)]
+        if ex.env.get('native'):
+            runner, prof = ex.env['native']
+            ex.env['native_used'] = True
+            txt = runner('pipe_panic', [n, sum(1 << i for i, f in enumerate(mask) if f)], timeout=120)[prof]
+            ex.env['native_out'] = txt
+            toks = txt.split()
+            if len(toks) != 2 or any(t not in ('FAILED', 'RETURNED') for t in toks):
+                raise Unsupported('native driver: ' + txt)
+            if any(mask) and 'RETURNED' in toks:
+                raise Violation('execute_blocking returned normally although the user function panicked in replica(s) %s '
+                                '(native: %s)' % ([i for i, f in enumerate(mask) if f], txt), hlib._wit(ex))
+            if not any(mask) and 'FAILED' in toks:
+                raise Violation('execute_blocking failed although no worker panicked (native: %s)' % txt, hlib._wit(ex))
+            return {'native': txt}
+        joined = []
+        handles = VecModel([WorkerHandle(i, mask[i], joined) for i in range(n)])
+        binfo = MapModel('HashMap', [[Int('u64', 0), Opaque('SchedulerBlockInfo')]])
+        sch = hlib.mk_struct(w, 'Scheduler', config=Opaque('RuntimeConfig'), next_blocks=MapModel('HashMap'),
+                             prev_blocks=MapModel('HashMap'), block_info=binfo, block_init=VecModel([]),
+                             network=Opaque('NetworkTopology'))
+        nop = lambda ex, c, a: unit()
+        ex.env['fn_overrides'] = {
+            'Scheduler::log_topology': nop,
+            'Scheduler::build_all': lambda ex, c, a: Agg('tuple', None, [handles, VecModel([])]),
+            'NetworkTopology::stop_and_wait': nop,
+            'wait_profiler': lambda ex, c, a: Opaque('ProfilerResult'),
+            'Scheduler::log_tracing_data': nop,
+        }
+        sx = lambda: {'workers': n, 'panicked': [i for i, f in enumerate(mask) if f], 'joined': list(joined)}
+        try:
+            ex.call_function(sb, [sch, Int('u64', 1)])
+        except RustPanic as p:
+            if not any(mask):
+                raise Violation('the scheduler fails although no worker panicked: %s' % p.msg, hlib._wit(ex), sx())
+            hlib.cover(ex, 'failed')
+            return sx()
+        if any(mask):
+            raise Violation('Scheduler::start_blocking returns normally although worker(s) %s panicked: the failure of the '
+                            'user function is masked, execute_blocking succeeds' % [i for i, f in enumerate(mask) if f],
+                            hlib._wit(ex), sx())
+        if sorted(joined) != list(range(n)):
+            raise Violation('the scheduler returned without waiting for every worker (joined %s of %d)' % (joined, n),
+                            hlib._wit(ex), sx())
+        hlib.cover(ex, 'returned')
+        return sx()
+    return h
+
+
 _sink_tasks = TASKS
 
 
@@ -325,4 +402,9 @@ def TASKS(tier):     # noqa: F811
                     'Terminate is never sent), then the channel is disconnected; batch mode %s' %
                     (n, 1 if tier == 'quick' else 2, 'adaptive' if a else 'fixed'), role='dead_channel',
              opts={'covers': ['panicked', 'sibling_terminated'] if n > 1 else ['panicked']})
-        for n in (1, 2) for a in (False, True)]
+        for n in (1, 2) for a in (False, True)] + [
+        Task('scheduler_join_%d' % n, 'join_harness', {'n': n},
+             bounds='Scheduler::start_blocking (default features: the non-tokio arm) with %d worker handles, every subset '
+                    'of them failed; build_all / log_topology / stop_and_wait / wait_profiler / log_tracing_data are stubs' % n,
+             role='scheduler_join', opts={'covers': ['failed', 'returned']})
+        for n in ((1, 3) if tier == 'quick' else (1, 2, 3, 5))]
